@@ -170,6 +170,9 @@ impl SystemdUnit {
             .data
             .get_all(key)
             .last()
+            // an empty assignment resets the key (as it does for lists in lookup_all_values()),
+            // i.e. afterwards the key counts as not set
+            .filter(|v| !v.raw().is_empty())
     }
 
     pub(crate) fn new() -> Self {
